@@ -1,7 +1,7 @@
 """C05 -- factorization: method honoured, fresh-name protocol, carry-over of factors/domains/start/edges,
 edge placed in exactly the topmost covering bag."""
 from __future__ import annotations
-import ast
+import ast, copy
 from typing import Dict, List, Optional, Set
 from ..model import Program, AnalysisError, own_nodes, norm, names_in, FuncInfo
 from ..cfg import cfg_of
@@ -133,7 +133,14 @@ def carry_over(rep: Report, prog: Program) -> None:
              and norm(n.iter.func.value) == hp]
     rep.ob(rule, h.fq(), f"iterates over {hp}.all_rules()", h.loc(), bool(loops), '' if loops else 'no loop over all rules of the argument')
     for lp in loops:
-        inner = [n for n in ast.walk(lp) if isinstance(n, ast.For) and n is not lp and isinstance(n.iter, ast.Call) and callee_last(n.iter) == 'factorize_rule']
+        # the list of new rules may be given a name first (`rnews = factorize_rule(r, ...); for rnew in rnews:`)
+        inner = []
+        for n in ast.walk(lp):
+            if isinstance(n, ast.For) and n is not lp:
+                it_ = inline_temps(lp, n.iter)
+                if isinstance(it_, ast.Call) and callee_last(it_) == 'factorize_rule':
+                    n = copy.copy(n); n.iter = it_
+                    inner.append(n)
         ok = False
         for il in inner:
             tv = norm(il.target)
